@@ -20,15 +20,16 @@ def check_impl(line, res):
     bad = lambda why: '%s: %s' % (op, why)
     if op in ('des.rt.de', 'des.rt.ed', 'tdea.rt.de', 'tdea.rt.ed', 'des.iprt'):
         return C2.check_impl(line, res)
-    if op in ('des.enc', 'des.dec', 'tdea.enc', 'tdea.dec'):
+    if op in ('des.len.enc', 'des.len.dec', 'tdea.len.enc', 'tdea.len.dec'):
         m = unhx(a[-1])
-        if res == 'ERR':
-            ok_sizes = len(m) == 8 and (len(unhx(a[0])) == 8 if op.startswith('des.') else
-                                        (lambda bd: bd is not None and all(len(k) == 8 for k in bd))(R.bundle_of_call(unhx(a[0]), C2.ob(a[1]), C2.ob(a[2]))))
-            return bad('defined sizes rejected') if ok_sizes else None
-        if len(unhx(res)) != len(m): return bad('|result| = %d, |block| = %d' % (len(unhx(res)), len(m)))
-        if len(m) != 8: return bad('a block of %d bytes was processed' % len(m))
-        return None
+        if op.startswith('des.'): ok_sizes = len(unhx(a[0])) == 8
+        else:
+            bd = R.bundle_of_call(unhx(a[0]), C2.ob(a[1]), C2.ob(a[2]))
+            ok_sizes = bd is not None and all(len(k) == 8 for k in bd)
+        ok_sizes = ok_sizes and len(m) == 8
+        if res == 'ERR': return bad('defined sizes rejected') if ok_sizes else None
+        if not ok_sizes: return bad('a size the algorithm does not define was processed')
+        return None if int(res) == len(m) else bad('|result| = %s, |block| = %d' % (res, len(m)))
     return None
 
 
@@ -46,20 +47,20 @@ def cases(tier, rng):
             yield 'des.iprt %s' % bt(64, rng.getrandbits(64)), 'search'
         return
     yield from C2.des_core_cases(tier, rng, ops=('des.rt.de', 'des.rt.ed'))
-    yield from C2.size_cases(rng, ('des.rt.de', 'des.rt.ed', 'des.enc', 'des.dec'))
+    yield from C2.size_cases(rng, ('des.rt.de', 'des.rt.ed', 'des.len.enc', 'des.len.dec'))
     yield from C2.tdea_cases(tier, rng, ops=('tdea.rt.de', 'tdea.rt.ed'))
     # length law on plain enc/dec
     for _ in range(40 if q else 400):
         k = C2.rb(rng, 8); m = C2.rb(rng, 8)
-        yield 'des.enc %s %s' % (hx(k), hx(m)), 'des.length'
-        yield 'des.dec %s %s' % (hx(k), hx(m)), 'des.length'
-        yield C2.tline('tdea.enc', (k, C2.rb(rng, 8), C2.rb(rng, 8)), m), 'tdea.length'
+        yield 'des.len.enc %s %s' % (hx(k), hx(m)), 'des.length'
+        yield 'des.len.dec %s %s' % (hx(k), hx(m)), 'des.length'
+        ks = (k, C2.rb(rng, 8), C2.rb(rng, 8))
+        yield C2.tline('tdea.len.enc', ks, m), 'tdea.length'
+        yield C2.tline('tdea.len.dec', (ks[0] + ks[1] + ks[2], None, None), m), 'tdea.length'
     # IP / IPinv on the entire unit basis, extremes, random
     for i in range(64): yield 'des.iprt %s' % bt(64, 1 << i), 'des.iprt.unit'
     for v in (0, (1 << 64) - 1, 0x0123456789abcdef): yield 'des.iprt %s' % bt(64, v), 'des.iprt'
     for _ in range(100 if q else 2000): yield 'des.iprt %s' % bt(64, rng.getrandbits(64)), 'des.iprt.random'
     for n in (63, 65, 0, 32): yield 'des.iprt %s' % bt(n, rng.getrandbits(n) if n else 0), 'des.iprt.size'
-    for op in ('des.IP', 'des.IPinv'):
-        for i in range(64): yield '%s %s' % (op, bt(64, 1 << i)), op
 
 shrink = C2.shrink
